@@ -287,4 +287,7 @@ def add_phases(rng, desc, unknown=0.1):
                 sub = ["nosuch"]              # names only phases outside the system's set: inactive in every phase
             c["pconf"] = sub
     desc.setdefault("_build", {})["phase_order"] = rng.choice(["normal", "normal", "comp_first", "redefine"])
+    plain = [c for c in desc["comps"] if c.get("pconf") is None and c["kind"] not in ("rloss", "vloss", "rectifier")]
+    if plain and rng.random() < 0.3:
+        desc["_build"]["retouch"] = {"x": rng.choice(plain)["name"]}
     return desc
